@@ -372,13 +372,22 @@ def run(ctx, prog):
                        'documents missing and reports success; what happens when the load FAILS is C13.R1')
     of7 = flow.Origin(rec)
     loads7 = rec.calls_to('Snapshot::load_with_validation', 'Snapshot::load')
-    NONE7 = re.compile(r'^variant\(.*→Manifest\.latest_snapshot\) (?:= None|∉ \{Some\})$|^!bool\[Option::is_some\(.*→Manifest\.latest_snapshot\)\]$|^bool\[Option::is_none\(.*→Manifest\.latest_snapshot\)\]$')
+    # "a test of the field itself": the switched-on Option is manifest.latest_snapshot, seen through what preserves Some-ness (as_ref / clone / as_deref are transparent in
+    # origins; Option::map is looked through here) — not Option::filter / and_then / a zip with a file-system probe, whose None says something else
+    def _is_field7(e):
+        while e[0] == 'cast' or (e[0] == 'call' and flow.short(e[1]) == 'Option::map' and e[2]):
+            e = e[1] if e[0] == 'cast' else e[2][0]
+        return e[0] == 'field' and e[2].endswith('Manifest.latest_snapshot')
     none7 = []
     for i, blk in enumerate(rec.blocks):
         if blk['t']['k'] == 'switch' and i in rec.live_blocks():
-            for tg, p in flow.switch_edge_predicates(rec, i, of7):
-                if NONE7.match(p):
-                    none7.append((i, tg))
+            e = of7.of_operand(blk['t']['on'])
+            while e[0] == 'un' and e[1] == 'Not':
+                e = e[2]
+            if e[0] == 'discr' and _is_field7(e[1]):
+                none7 += [(i, tg) for tg, p in flow.switch_edge_predicates(rec, i, of7) if re.search(r'\) (?:= None|∉ \{Some\})$', p)]
+            elif e[0] == 'call' and flow.short(e[1]) in ('Option::is_some', 'Option::is_none') and e[2] and _is_field7(e[2][0]):
+                none7 += [(i, tg) for tg, p in flow.switch_edge_predicates(rec, i, of7) if p.startswith('!bool[Option::is_some(') or p.startswith('bool[Option::is_none(')]
     if not loads7 or not none7:
         ctx.missing('C13.R7', 'recovery: snapshot loader call (%d) / test of manifest.latest_snapshot (%d None edges)' % (len(loads7), len(none7)))
     else:
